@@ -31,6 +31,9 @@ type c16Cfg struct {
 	SMTP    bool `json:"smtp"`    // drive smtp.Client directly and issue NOOP after Auth returned
 	Retry   bool `json:"retry"`   // smtp mode: call Auth a second time on the same smtp.Client (after whatever the first did)
 	NoHello bool `json:"nohello"` // smtp mode: Auth is the first call on the smtp.Client (it sends EHLO/HELO itself)
+	// Setters (mail.Client mode): the Client is constructed with auth-data logging ON and without debug log / logger,
+	// then configured through SetDebugLog(true), SetLogger and SetLogAuthData(false)
+	Setters bool `json:"setters,omitempty"`
 }
 
 type c16Case struct {
@@ -223,10 +226,24 @@ func c16Exec(r *vf.Run, cfg c16Cfg, c *vf.Chooser) (keys, whats []string, contro
 		if cfg.LogAuth {
 			opts = append(opts, mail.WithLogAuthData())
 		}
+		if cfg.Setters {
+			opts = []mail.Option{mail.WithDialContextFunc(rig.Dial), mail.WithHELO("client.example.test"), mail.WithTLSConfig(hx.ClientTLS(hx.Host)),
+				mail.WithSMTPAuth(types[mech]), mail.WithUsername(c16User), mail.WithPassword(secret), mail.WithLogAuthData()}
+			if useTLS {
+				opts = append(opts, mail.WithTLSPolicy(mail.TLSMandatory))
+			} else {
+				opts = append(opts, mail.WithTLSPolicy(mail.NoTLS))
+			}
+		}
 		cl, err := mail.NewClient(hx.Host, opts...)
 		if err != nil {
 			r.HarnessError("C16 NewClient: %v", err)
 			return
+		}
+		if cfg.Setters {
+			cl.SetLogger(lg)
+			cl.SetDebugLog(true)
+			cl.SetLogAuthData(false)
 		}
 		derr := cl.DialWithContext(context.Background())
 		authReturned = len(sess.Transcript)
@@ -320,7 +337,7 @@ func init() {
 	vf.Register(&vf.Check{
 		ID: "C16", Title: "authentication secrets never reach the debug log",
 		Run: func(r *vf.Run) {
-			r.SetRule("mechanism {PLAIN, LOGIN, CRAM-MD5, XOAUTH2, SCRAM-SHA-1, SCRAM-SHA-256, SCRAM-SHA-256-PLUS over real TLS} × 4 marker credentials (base64 padding 0/1/2, '='/',', Unicode) × logger {custom capturing, log.New, log.NewJSON} × {debug only, debug+WithLogAuthData as scanner control} × entry {mail.Client dial+send, smtp.Client Auth then NOOP, smtp.Client Auth, Auth again, then NOOP; each smtp.Client entry with and without a preceding Hello call} × every server script over {conforming, 535, non-base64 challenge, extra challenge, drop, transport write failure on the next client line} at every AUTH step and at the EHLO that precedes AUTH {ok, write failure afterwards, 502 with HELO fallback} up to the deviation bound; the log (format, arguments, formatted line, raw output, decoded JSON msg) is scanned for the secret, its base64/hex/url-base64 forms and the exact SASL response; distinct by (configuration, script)")
+			r.SetRule("mechanism {PLAIN, LOGIN, CRAM-MD5, XOAUTH2, SCRAM-SHA-1, SCRAM-SHA-256, SCRAM-SHA-256-PLUS over real TLS} × 4 marker credentials (base64 padding 0/1/2, '='/',', Unicode) × logger {custom capturing, log.New, log.NewJSON} × {debug only, debug+WithLogAuthData as scanner control} × entry {mail.Client dial+send (configured by options, or constructed with auth-data logging on and then configured through SetLogger / SetDebugLog / SetLogAuthData(false)), smtp.Client Auth then NOOP, smtp.Client Auth, Auth again, then NOOP; each smtp.Client entry with and without a preceding Hello call} × every server script over {conforming, 535, non-base64 challenge, extra challenge, drop, transport write failure on the next client line} at every AUTH step and at the EHLO that precedes AUTH {ok, write failure afterwards, 502 with HELO fallback} up to the deviation bound; the log (format, arguments, formatted line, raw output, decoded JSON msg) is scanned for the secret, its base64/hex/url-base64 forms and the exact SASL response; distinct by (configuration, script)")
 			r.Assume("user names are not secrets", "a server that echoes credentials in its own reply text is outside the alphabet")
 			bound := 3
 			if r.Thorough {
@@ -340,6 +357,9 @@ func init() {
 									continue // quick: the scanner control runs once per mechanism × logger
 								}
 								cfgs = append(cfgs, c16Cfg{Mech: m, Cred: cr, Logger: lg, LogAuth: la, SMTP: sm})
+								if !sm && !la {
+									cfgs = append(cfgs, c16Cfg{Mech: m, Cred: cr, Logger: lg, Setters: true})
+								}
 								if sm && !la {
 									cfgs = append(cfgs, c16Cfg{Mech: m, Cred: cr, Logger: lg, LogAuth: la, SMTP: sm, Retry: true})
 									cfgs = append(cfgs, c16Cfg{Mech: m, Cred: cr, Logger: lg, LogAuth: la, SMTP: sm, NoHello: true})
